@@ -3,7 +3,7 @@
 Same executions as C03; the bytes returned by to_boc are handed to the strict decoder of specs/bocspec.py.
 """
 from harness.boc_common import *
-from harness.C03 import small_dags, _root_for
+from harness.C03 import small_dags, _root_for, exact_cells_dag, payload_chain
 from pytoniq_core.boc import Builder, Cell, Slice
 
 PROPERTY = 'C04'
@@ -54,6 +54,40 @@ def h_wire(ctx, shape=None, opts=None, twins=(), exotic=None, m=1, twin=None):
     ctx.observe('cells', h['cells_num'])
 
 
+def h_wire_big(ctx, kind, n, opts):
+    """width boundaries of the header fields: exactly n distinct cells (kind='cells') or exactly n bytes of cell data
+    (kind='payload'); the emitted bytes must satisfy the strict decoder and decode to the same DAG"""
+    sc = exact_cells_dag(ctx, n) if kind == 'cells' else payload_chain(ctx, n)
+    root = to_real(sc, via='builder')
+    crc = install_crc_stub(ctx)
+    boc = root.to_boc(**opts)
+    try:
+        h = bocspec.decode(boc, crc)
+    except bocspec.BocSpecError as ex:
+        ctx.require(False, 'strict decoder accepts the emitted bytes at a width boundary [' + str(ex)[:60] + ']')
+        return
+    ctx.require(True, 'strict decoder accepts the emitted bytes at a width boundary')
+    nodes = topo(sc)
+    ctx.require(h['cells_num'] == len(nodes), 'width boundary: cell count')
+    if kind == 'payload':
+        ctx.require(h['tot'] == n, 'width boundary: cell data size is the constructed one')
+    ctx.require(h['crc_ok'], 'CRC-32C covers everything before it')
+    # decoded DAG equals the original (iteratively: the chains are deep)
+    ok = True
+    stack, seen = [(h['roots'][0], sc)], set()
+    while stack:
+        i, s_ = stack.pop()
+        if (i, id(s_)) in seen:
+            continue
+        seen.add((i, id(s_)))
+        c = h['cells'][i]
+        ok = And(ok, c['bits'] == s_.bits, len(c['refs']) == len(s_.refs))
+        if len(c['refs']) == len(s_.refs):
+            stack.extend(zip(c['refs'], s_.refs))
+    ctx.require(ok, 'width boundary: decodes to the same DAG')
+    ctx.observe('len', len(boc))
+
+
 def instances(tier, seed):
     dags = small_dags()
     fam = family_dags()
@@ -70,9 +104,14 @@ def instances(tier, seed):
     for ex, m in (('mproof_ord_pruned', 1), ('mproof_ord_pruned', 3), ('mupd', 1), ('library', 1), ('ord_over_two_pruned', 5)):
         for o in (OPTIONS[0], OPTIONS[5]) if tier == 'quick' else OPTIONS:
             yield 'h_wire', dict(exotic=ex, m=m, opts=o)
-    # header-field width boundaries: payload 255/256 bytes, cells 255/256
-    for n in (1, 2):
-        pass
+    # header-field width boundaries: number of cells (size field and every reference index) and bytes of cell data
+    # (off_bytes, the index entries and - doubled - the entries with cache bits)
+    for n in (255, 256, 257) + ((65535, 65536, 65537) if tier == 'thorough' else ()):
+        for o in (OPTIONS[0], OPTIONS[5]) if tier == 'quick' else OPTIONS:
+            yield 'h_wire_big', dict(kind='cells', n=n, opts=o)
+    for n in (127, 128, 129, 255, 256, 257) + ((32767, 32768, 32769, 65535, 65536, 65537) if tier == 'thorough' else (32768, 65536)):
+        for o in OPTIONS:
+            yield 'h_wire_big', dict(kind='payload', n=n, opts=o)
 
 
 def twins(tier, seed):
@@ -84,6 +123,7 @@ BOUNDS = {
     'contents': 'all data bits symbolic',
     'options': 'the 6 valid combinations',
 }
-OUTSIDE = ['width boundaries of header fields beyond what the enumerated DAGs reach (see h_width in thorough)']
+BOUNDS['width boundaries'] = 'exactly 255, 256, 257 (thorough: 65535..65537) distinct cells; exactly 127..129, 255..257, 32768, 65536 (thorough: +-1 of each) bytes of cell data; root symbolic, concrete distinct filler'
+OUTSIDE = ['bags of more than 65537 cells or 65537 bytes of cell data']
 STUBS = ['crc32c: memoised uninterpreted function on both sides (span check by congruence)', 'hashlib.sha256: injective uninterpreted function']
 ASSUMPTIONS = ['specs/bocspec.py is a faithful strict reading of boc.tlb']
